@@ -1309,7 +1309,10 @@ class JumpBase(FinalInstruction):
         """Clear references"""
         while self._block_map:
             _, block = self._block_map.popitem()
-            block.references.remove(self)
+            # Both targets of a conditional jump can be the same block:
+            block.references.discard(self)
+        # Release the used values as well (condition operands):
+        super().delete()
 
     @property
     def targets(self):
